@@ -127,3 +127,62 @@ def _consistent(conds, facts) -> bool:
             return False
         have[c] = b
     return True
+
+
+def specialise(stmts, subject: str, member: str | None, enum: str):
+    """the statements that remain of a dispatch over `subject` (an enum value) when it is known to be `enum.member` (or, for
+    member None, none of the members that are tested): `if subject == enum.X` / `!=` / `in (..)` / `not ..` / and / or tests and
+    `match subject: case enum.X` arms are decided, everything else is kept.  Statements after a decided unconditional
+    return / raise / continue / break are dropped."""
+    def val(t):
+        if isinstance(t, ast.UnaryOp) and isinstance(t.op, ast.Not):
+            v = val(t.operand)
+            return None if v is None else (not v)
+        if isinstance(t, ast.BoolOp):
+            vs = [val(x) for x in t.values]
+            if isinstance(t.op, ast.And):
+                return False if any(v is False for v in vs) else (True if all(v is True for v in vs) else None)
+            return True if any(v is True for v in vs) else (False if all(v is False for v in vs) else None)
+        if isinstance(t, ast.Compare) and len(t.ops) == 1:
+            l, r, op = t.left, t.comparators[0], t.ops[0]
+
+            def mem(e):
+                return e.attr if isinstance(e, ast.Attribute) and ast.unparse(e.value) == enum else None
+            if isinstance(op, (ast.Eq, ast.NotEq, ast.Is, ast.IsNot)):
+                for a, b in ((l, r), (r, l)):
+                    if ast.unparse(a) == subject and mem(b) is not None:
+                        eq = mem(b) == member
+                        return eq if isinstance(op, (ast.Eq, ast.Is)) else not eq
+            if isinstance(op, (ast.In, ast.NotIn)) and ast.unparse(l) == subject and isinstance(r, (ast.Tuple, ast.List, ast.Set)) \
+                    and all(mem(e) is not None for e in r.elts):
+                inn = member in [mem(e) for e in r.elts]
+                return inn if isinstance(op, ast.In) else not inn
+        return None
+
+    def go(body):
+        out = []
+        for s in body:
+            if isinstance(s, ast.Match) and ast.unparse(s.subject) == subject:
+                chain = match_as_ifs(s)
+                if chain is not None:
+                    sub = go(chain)
+                    out.extend(sub)
+                    if sub and isinstance(sub[-1], (ast.Return, ast.Raise, ast.Continue, ast.Break)):
+                        return out
+                    continue
+            if isinstance(s, ast.If):
+                v = val(s.test)
+                if v is None:
+                    node = ast.If(test=s.test, body=go(s.body) or [ast.Pass()], orelse=go(s.orelse))
+                    out.append(ast.fix_missing_locations(ast.copy_location(node, s)))
+                    continue
+                sub = go(s.body if v else s.orelse)
+                out.extend(sub)
+                if sub and isinstance(sub[-1], (ast.Return, ast.Raise, ast.Continue, ast.Break)):
+                    return out
+                continue
+            out.append(s)
+            if isinstance(s, (ast.Return, ast.Raise, ast.Continue, ast.Break)):
+                return out
+        return out
+    return go(list(stmts))
